@@ -341,7 +341,7 @@ def validate_runs(module, cfg, runs, workdir, tag, mode="post", chunk=400, max_f
             within = matched - acc
             failures.append({"run_index": i, "matched_in_run": within,
                              "event": runs[i][within] if within < len(runs[i]) else None,
-                             "run": runs[i], "tlc_tail": res.out[-1500:]})
+                             "run": runs[i], "tlc_tail": res.out[-1500:], "violation": res.violation})
             accepted += bad
             tp.unlink()
             part = part[bad + 1:]
